@@ -56,10 +56,15 @@ def seeded_table():
         if len(needs) > 230:
             needs = needs[:227] + "..."
         cells = "; ".join(f"{pid}: {v} ({t})" for pid, (v, t, _m) in r["checks"].items())
+        if meta.get("note") and not any(v[0] == "caught" for v in r["checks"].values()):
+            cells += " - " + meta["note"].replace("\n", " ").replace("|", "/")[:260]
         lines.append(f"| {r['name']} | {needs} | {cells} |")
     caught = sum(1 for r in rs if any(v[0] == "caught" for v in r["checks"].values()))
+    target = sum(1 for r in rs if next(iter(r["checks"].values()))[0] == "caught")
     lines.append("")
-    lines.append(f"{caught} of {len(rs)} seeded changes are caught by the quick check of the property they target.")
+    lines.append(f"{target} of {len(rs)} seeded changes are caught by the quick check of the property they were written against, "
+                 f"{caught} by that check or the check of a neighbouring property the change breaks as well (listed after it); "
+                 f"the {len(rs) - caught} others are annotated in their row.")
     return "\n".join(lines)
 
 
